@@ -20,12 +20,12 @@ type Amount struct {
 }
 
 type Bounds struct {
-	SrcDepth   int  // nesting depth of sources (0 = leaves only)
-	DstDepth   int  // nesting depth of destinations
-	Vars       bool // variable leaves (account/monetary/portion/asset variables, meta(), balance())
-	ThreeWay   bool // ordered lists / allotments of three entries
+	SrcDepth    int  // nesting depth of sources (0 = leaves only)
+	DstDepth    int  // nesting depth of destinations
+	Vars        bool // variable leaves (account/monetary/portion/asset variables, meta(), balance())
+	ThreeWay    bool // ordered lists / allotments of three entries
 	SecondAsset bool
-	Wide       bool // wider amount / cap alphabets
+	Wide        bool // wider amount / cap alphabets
 }
 
 func X(n int64) *Expr { return Mon("X", n) }
@@ -510,6 +510,47 @@ func simpleSends() []*Stmt {
 	return out
 }
 
+// constantStmts: statements whose literals meet in the compiler's constant pool - numbers and amounts at the word-size
+// boundaries (2^63, 2^64 and neighbours, congruent to the small integers the compiler itself emits), in either order with a send
+func constantStmts() []*Stmt {
+	pow := func(k uint, d int64) *big.Int {
+		return new(big.Int).Add(new(big.Int).Lsh(big.NewInt(1), k), big.NewInt(d))
+	}
+	var out []*Stmt
+	for _, n := range []*big.Int{big.NewInt(0), big.NewInt(1), big.NewInt(3), pow(63, 0), pow(64, -1), pow(64, 0), pow(64, 1), pow(64, 3), pow(70, 0)} {
+		out = append(out, &Stmt{K: StSetTxMeta, Key: "k", Val: &Expr{K: ENum, N: n}})
+	}
+	out = append(out,
+		&Stmt{K: StSetTxMeta, Key: "j", Val: Add(&Expr{K: ENum, N: pow(64, 1)}, Num(1))},
+		&Stmt{K: StPrint, Val: Sub(&Expr{K: ENum, N: pow(64, 3)}, Num(3))},
+		&Stmt{K: StSend, Mon: X(3), Src: VSource{Src: SrcAcc(Acc("world"))}, Dst: DstAcc(Acc("a"))},
+		&Stmt{K: StSend, Mon: X(3), Src: VSource{Src: SrcAcc(Acc("a"))}, Dst: DstAcc(Acc("b"))},
+		&Stmt{K: StSend, Mon: MonBig(Asset("X"), pow(64, 3)), Src: VSource{Src: SrcAcc(Acc("world"))}, Dst: DstAcc(Acc("a"))},
+		&Stmt{K: StSend, Mon: X(3), Src: VSource{Src: SrcOv(Acc("a"), MonBig(Asset("X"), pow(64, 0)))}, Dst: DstAcc(Acc("c"))},
+		&Stmt{K: StSetTxMeta, Key: "m", Val: MonBig(Asset("X"), pow(64, 0))},
+		&Stmt{K: StSetTxMeta, Key: "m0", Val: X(0)},
+	)
+	return out
+}
+
+// selfAndAllSends: what simpleSends leaves out - an account sending to itself, and "everything" sends; a later statement
+// sees the balance they leave behind
+func selfAndAllSends() []*Stmt {
+	var out []*Stmt
+	for _, acc := range []string{"a", "b"} {
+		out = append(out, &Stmt{K: StSend, Mon: X(3), Src: VSource{Src: SrcAcc(Acc(acc))}, Dst: DstAcc(Acc(acc))})
+		out = append(out, &Stmt{K: StSend, All: Asset("X"), Src: VSource{Src: SrcAcc(Acc(acc))}, Dst: DstAcc(Acc(acc))})
+		for _, dst := range []string{"a", "b", "c"} {
+			if dst != acc {
+				out = append(out, &Stmt{K: StSend, All: Asset("X"), Src: VSource{Src: SrcAcc(Acc(acc))}, Dst: DstAcc(Acc(dst))})
+			}
+		}
+	}
+	// a source list naming the destination itself next to another account
+	out = append(out, &Stmt{K: StSend, Mon: X(50), Src: VSource{Src: SrcOrder(SrcAcc(Acc("a")), SrcAcc(Acc("b")))}, Dst: DstAcc(Acc("a"))})
+	return out
+}
+
 type Space struct {
 	Blocks []ProgBlock
 }
@@ -565,6 +606,8 @@ func StandardSpace(thorough bool) *Space {
 	add(&Block{Name: "deep-src", Amounts: base.Amounts()[:3], Sources: vs(deep.sourcesAt(2)), Dests: base.dstLeaves()[:2]})
 	add(&Block{Name: "deep-dst", Amounts: base.Amounts()[:3], Sources: vs(base.srcLeaves()[:4]), Dests: deep.Dests()})
 	add(&SeqBlock{Name: "three-sends", Alphabet: simpleSends(), Len: 3})
+	add(&SeqBlock{Name: "constant-pool", Alphabet: constantStmts(), Len: 2})
+	add(&SeqBlock{Name: "three-sends-self-and-all", Alphabet: append(simpleSends()[:6], selfAndAllSends()...), Len: 3})
 	if thorough {
 		wide := Bounds{SrcDepth: 1, DstDepth: 1, Wide: true, ThreeWay: true, SecondAsset: true, Vars: true}
 		add(&Block{Name: "wide-src", Amounts: wide.Amounts(), Sources: wide.Sources(), Dests: wide.dstLeaves()})
